@@ -148,6 +148,39 @@ Theorem c14_cosmos_two_batch_gap :
 Proof. exact c14_cosmos_create_gap_lemma. Qed.
 Print Assumptions c14_cosmos_two_batch_gap.
 
+(* Delete is plan batch, then search batch: the same gap. If the search batch fails, Delete returns an
+   ERROR although the plan's items are gone and its search entry is still there ... *)
+Theorem c14_cosmos_delete_two_batch_gap :
+  forall (enc_req : blob -> option code) (dec_req : tok -> code -> option blob)
+         (enc_att : attempt -> option code) (dec_att : tok -> code -> option attempt)
+         (req_ok : tok -> blob -> bool) (att_ok : tok -> attempt -> bool),
+    (forall t b c, req_ok t b = true -> enc_req b = Some c -> dec_req t c = Some b) ->
+    (forall t a c, att_ok t a = true -> enc_att a = Some c -> dec_att t c = Some a) ->
+    forall (ops : list op) (id : uid) (p : spln),
+      cops_ok enc_req enc_att req_ok att_ok [] ops ->
+      Spec.read id (Spec.run enc_req enc_att ops []) = Some p ->
+      exists c', CosmosModel.delete_stage dec_req dec_att 1 id (CosmosModel.run enc_req dec_req enc_att dec_att ops cempty) = (c', false)
+                 /\ (forall r, In r (fst c') -> row_plan r <> id)
+                 /\ CosmosModel.read dec_req dec_att id c' = None
+                 /\ In id (snd c').
+Proof. exact c14_cosmos_delete_gap_lemma. Qed.
+Print Assumptions c14_cosmos_delete_two_batch_gap.
+
+(* ... and what the property needs: at NO fault stage does Delete report success while a trace of the plan
+   remains (no item with that plan id, no search entry, the id reads as an error). *)
+Theorem c14_delete_success_no_trace_cosmos :
+  forall (enc_req : blob -> option code) (dec_req : tok -> code -> option blob)
+         (enc_att : attempt -> option code) (dec_att : tok -> code -> option attempt)
+         (req_ok : tok -> blob -> bool) (att_ok : tok -> attempt -> bool),
+    (forall t b c, req_ok t b = true -> enc_req b = Some c -> dec_req t c = Some b) ->
+    (forall t a c, att_ok t a = true -> enc_att a = Some c -> dec_att t c = Some a) ->
+    forall (ops : list op) (stage : nat) (id : uid) (c' : cdb),
+      cops_ok enc_req enc_att req_ok att_ok [] ops ->
+      CosmosModel.delete_stage dec_req dec_att stage id (CosmosModel.run enc_req dec_req enc_att dec_att ops cempty) = (c', true) ->
+      (forall r, In r (fst c') -> row_plan r <> id) /\ ~ In id (snd c') /\ CosmosModel.read dec_req dec_att id c' = None.
+Proof. exact c14_delete_success_no_trace_cosmos_lemma. Qed.
+Print Assumptions c14_delete_success_no_trace_cosmos.
+
 Theorem c14_delete_exact_cosmos :
   forall (enc_req : blob -> option code) (dec_req : tok -> code -> option blob)
          (enc_att : attempt -> option code) (dec_att : tok -> code -> option attempt)
